@@ -88,6 +88,7 @@ func verifObjHas(x []byte, p string) bool                      { panic("intrinsi
 func verifObjGet(x []byte, p string) []byte                    { panic("intrinsic") }
 func verifObjWellFormed(x []byte) bool                         { panic("intrinsic") }
 
+func verifMapSource(src string)        { panic("intrinsic") } // the map function source the oracle applies from now on
 func verifMapEmits(d verifDoc) bool    { panic("intrinsic") } // the (uninterpreted) map function emits a row for this document state
 func verifMapKey(d verifDoc) []byte    { panic("intrinsic") }
 func verifMapValue(d verifDoc) []byte  { panic("intrinsic") }
